@@ -101,6 +101,14 @@ def run_sweep(res, work, bins, mode):
             ed = unhex(t[4])
             oreq.append("feat flag_oracle t=%s e=%s flags=%s" % (kv["target"], ed, ",".join(on)))
             oidx.append(i)
+            # independent reading of the version string (not the implementation's own parse): a
+            # `1.N[.P]-nightly` compiler is only guaranteed to have what was stable in 1.(N-1)
+            mm = re.match(r"^1\.(\d{1,4})(?:\.\d{1,6})?(?:-([a-z]+)[.0-9a-z]*)?$", unhex(t[3]))
+            if mm and ed:
+                minor = int(mm.group(1)) - (1 if mm.group(2) == "nightly" else 0)
+                if minor >= 0 and kv["target"].startswith("stable:"):
+                    oreq.append("feat flag_oracle t=stable:%d:0 e=%s flags=%s" % (minor, ed, ",".join(on)))
+                    oidx.append(i)
     oans = common.run_model(oreq) if oreq else []
     em = re.search(r"earliest=stable:(\d+):", impl[0])
     earliest_minor = int(em.group(1)) if em else 0
